@@ -193,7 +193,8 @@ func init() {
 		Name: "random-long-scalar-arrays",
 		N:    qt(30000, 2000000),
 		Run: func(c *mon.Ctx, i int) {
-			alpha := [][]any{{1.0, 2.0}, {1.0, 2.0, 3.0}, {"a", "b", 1.0, true}, {0.0, 1.0, 2.0, 3.0, 4.0, 5.0}}[i%4]
+			alpha := [][]any{{1.0, 2.0}, {1.0, 2.0, 3.0}, {"a", "b", 1.0, true}, {0.0, 1.0, 2.0, 3.0, 4.0, 5.0},
+				{nil, "null", true, "true", false, "false", 0.0, "0", ""}}[i%5]
 			prof := gen.PTiny.With(func(p *gen.Profile) { p.Scalars = alpha })
 			a := gen.Array(c.R, prof, c.R.Range(0, 40), 0)
 			var b []any
